@@ -322,6 +322,14 @@ def attribute_case(kind, supplied, version, restart, part):
                     AT.CRYPTOGRAPHIC_USAGE_MASK, [CUM.SIGN] if mine == 'public' else [CUM.VERIFY])]
                 if origin == 'pair':
                     pa[mine] = list(attrs)
+                elif origin == 'pairo':
+                    # this half's own template carries the supplied attributes while the COMMON template
+                    # says otherwise for the single-valued ones: the half's own value governs
+                    pa[mine] = list(attrs)
+                    pa['common'] = pa['common'] + W.common_attrs(
+                        [], None if supplied['policy'] is None else
+                        ('default' if supplied['policy'] != 'default' else 'open'), [], [],
+                        None if supplied['sensitive'] is None else not supplied['sensitive'])
                 else:
                     # pairc: the supplied attributes arrive in the COMMON template (the usage mask stays in
                     # this half's own); paircx: the other half's template moreover carries its own values
@@ -457,7 +465,9 @@ def supplied_menu():
     devs = [('names', ['a']), ('names', ['a', 'b']), ('names', ['', 'é']), ('groups', ['g']),
             ('groups', ['g', 'h', 'g2']), ('appinfo', [('ns', 'd')]), ('appinfo', [('ns', 'd'), ('ns2', 'e')]),
             ('sensitive', True), ('sensitive', False), ('masks', []), ('masks', [CUM.ENCRYPT]),
-            ('masks', list(CUM)), ('policy', 'open'), ('policy', 'default')]
+            ('masks', list(CUM)), ('policy', 'open'), ('policy', 'default'),
+            # a flag named twice is still one flag (the mask is a set of bits, not a sum)
+            ('masks', [CUM.ENCRYPT, CUM.DECRYPT, CUM.ENCRYPT]), ('masks', [CUM.SIGN, CUM.SIGN])]
     for k, v in devs:
         out.append(dict(base_, **{k: v}))
     for (k1, v1), (k2, v2) in itertools.combinations(devs, 2):
@@ -503,7 +513,7 @@ def run(tier, seed):
     sups = supplied_menu()
     for k in list(W.KINDS) + ['SymmetricKey@create', 'SymmetricKey@derive', 'PublicKey@pair',
                               'PrivateKey@pair', 'PublicKey@pairc', 'PrivateKey@pairc', 'PublicKey@paircx',
-                              'PrivateKey@paircx']:
+                              'PrivateKey@paircx', 'PublicKey@pairo', 'PrivateKey@pairo']:
         for j in range(2):
             tasks.append(('attributes', ([k], sups[j::2], acombos)))
     distinct = 0
